@@ -512,7 +512,13 @@ impl Serialize for Extensions {
             ExtensionsVariantV1::Causal(extensions) => {
                 seq.serialize_element(&extensions.log_id)?;
                 seq.serialize_element(&extensions.timestamp)?;
-                seq.serialize_element(&extensions.previous)?;
+
+                // A `HashSet` iterates in an order which differs between instances. Serialise the
+                // hashes sorted, so equal extensions always encode to the same bytes and a decoded
+                // header re-encodes (and thus hashes and verifies) identically.
+                let mut previous: Vec<&Hash> = extensions.previous.iter().collect();
+                previous.sort();
+                seq.serialize_element(&previous)?;
             }
         }
 
